@@ -20,7 +20,7 @@ func init() {
 	register(&Check{
 		ID: "C13", Level: "exploration", Primary: "sessions", EvalCount: "sessions_checked", RaceIsViolation: false,
 		Rule: "one session = a standards-conforming StartTLS upgrade (go-ldap's StartTLS, and a raw client that waits for the response before its ClientHello) through a wiretap proxy recording both directions, " +
-			"against a StartTLS handler (registered on the exact-name route, or - every third timing - performed by the default route) with delays in {0,1,5,50ms, and 0.7-3s} before the reply, between the reply and Request.StartTLS, and after it; 1..64 sessions upgrade in parallel; after the upgrade a mix of requests " +
+			"against a StartTLS handler (registered on the exact-name route, or - every third timing - performed by the default route) with delays in {0,1,5,50ms, and 0.7-3s} before the reply, between the reply and Request.StartTLS, and after it; 1..64 sessions upgrade in parallel, some after an answered bind/search on the still-plain connection whose handler lingers 300ms, some next to (and after) other sessions that take the StartTLS reply and then send garbage, half a ClientHello or nothing; after the upgrade a mix of requests " +
 			"(go-ldap bind/search/modify, and pipelined concurrent raw requests over the tunnel) is checked with the C01 comparison; one session keeps using the tunnel after several seconds of think time; part of the sessions stay open and idle until the server is stopped, so that shutdown-time bytes are on the wiretap too. Wiretap oracle: plaintext LDAP frames up to and including the StartTLS request " +
 			"(client->server) / the ExtendedResponse with its message ID (server->client), after which every byte in both directions parses as TLS records (content type 20-23, major version 3, length <= 2^14+2048). " +
 			"distinct_nontrivial = distinct (timing triple, client kind, parallelism) combinations whose upgrade completed",
@@ -28,7 +28,7 @@ func init() {
 		Phases: func(tier string, seed int64) []Phase {
 			return []Phase{{Name: "upgrades", Race: true, Run: c13Run}}
 		},
-		MinObserved: []string{"sessions_checked", "tls_records_classified", "post_upgrade_requests_compared", "sessions_open_and_idle_at_stop", "upgrades_served_by_the_default_route", "requests_answered_after_think_time"},
+		MinObserved: []string{"sessions_checked", "tls_records_classified", "post_upgrade_requests_compared", "sessions_open_and_idle_at_stop", "upgrades_served_by_the_default_route", "requests_answered_after_think_time", "handshakes_failed_or_abandoned_by_other_sessions", "sessions_with_an_answered_request_before_the_upgrade"},
 	})
 }
 
@@ -206,8 +206,23 @@ func c13Timed(c *Ctx, pki *PKI, tm c13Timing, par int, ti int) {
 		} else {
 			m.ExtendedOperation(upgrade, gldap.ExtendedOperationStartTLS)
 		}
-		m.Bind(rc.Handler("bind", ""))
-		m.Search(rc.Handler("search", ""))
+		// requests named cn=linger...: the handler stays around for a while after its last response
+		linger := func(h gldap.HandlerFunc) gldap.HandlerFunc {
+			return func(w *gldap.ResponseWriter, r *gldap.Request) {
+				h(w, r)
+				name := ""
+				if m, err := r.GetSimpleBindMessage(); err == nil {
+					name = m.UserName
+				} else if m, err := r.GetSearchMessage(); err == nil {
+					name = m.BaseDN
+				}
+				if strings.HasPrefix(name, "cn=linger") {
+					time.Sleep(300 * time.Millisecond)
+				}
+			}
+		}
+		m.Bind(linger(rc.Handler("bind", "")))
+		m.Search(linger(rc.Handler("search", "")))
 		m.Modify(rc.Handler("modify", ""))
 		m.Add(rc.Handler("add", ""))
 		m.Delete(rc.Handler("delete", ""))
@@ -233,6 +248,41 @@ func c13Timed(c *Ctx, pki *PKI, tm c13Timing, par int, ti int) {
 	var mu sync.Mutex
 	var sent []*ReqSpec
 	upgraded := 0
+	// other sessions whose handshake fails or is abandoned after the StartTLS reply (straight to the server: the
+	// wiretap judges conforming sessions only): ten before the conforming sessions start, ten next to them. What they
+	// leave behind must not matter to anybody else.
+	if tm.D1+tm.D2 <= 100 && ti%2 == 0 && !c.MuteViolations {
+		hostile := func(k int) {
+			cn, err := net.Dial("tcp", srv.Addr)
+			if err != nil {
+				return
+			}
+			defer cn.Close()
+			cl := wrapClient(cn)
+			cl.Send(sber.Message(1, sber.ExtendedRequest([]byte(sber.OIDStartTLS), nil, false), nil).Encode())
+			if _, err := cl.ReadMsg(c13Wait); err != nil {
+				return
+			}
+			switch k % 3 {
+			case 0:
+				cn.Write([]byte("GET / HTTP/1.0\r\n\r\n"))
+			case 1:
+				cn.Write([]byte{0x16, 0x03, 0x01, 0x00, 0x30, 0x01, 0x00})
+			}
+			if k%2 == 0 {
+				cn.SetReadDeadline(time.Now().Add(300 * time.Millisecond))
+				io.Copy(io.Discard, cn)
+			}
+			c.Count("handshakes_failed_or_abandoned_by_other_sessions", 1)
+		}
+		for k := 0; k < 10; k++ {
+			hostile(k)
+		}
+		for k := 0; k < 10; k++ {
+			wg.Add(1)
+			go func(k int) { defer wg.Done(); hostile(k) }(k)
+		}
+	}
 	// sessions with s%4 == 3 (raw) or s%4 == 2 (go-ldap) stay open and idle until after Stop has been called:
 	// whatever the server sends when it shuts down must be TLS-protected too
 	holdUntilStop := make(chan struct{})
@@ -258,6 +308,14 @@ func c13Timed(c *Ctx, pki *PKI, tm c13Timing, par int, ti int) {
 				lc.Start()
 				defer lc.Close()
 				lc.SetTimeout(c13Wait)
+				if s%4 == 0 && ti%2 == 1 {
+					// a request before the upgrade, answered, its handler still lingering when StartTLS arrives
+					if err := lc.Bind(fmt.Sprintf("cn=linger-%d-%d", ti, s), "pw"); err != nil {
+						c.Inconclusive("bind before the upgrade: " + err.Error())
+						return
+					}
+					c.Count("sessions_with_an_answered_request_before_the_upgrade", 1)
+				}
 				// go-ldap's handshake has no deadline of its own: bound it by closing the socket
 				stErr := make(chan error, 1)
 				go func() { stErr <- lc.StartTLS(pki.ClientPlain) }()
@@ -288,6 +346,21 @@ func c13Timed(c *Ctx, pki *PKI, tm c13Timing, par int, ti int) {
 				}
 				defer cn.Close()
 				cl := wrapClient(cn)
+				if s%4 == 1 && ti%2 == 1 {
+					// a request before the upgrade, answered, its handler still lingering when StartTLS arrives
+					cl.Send(sber.Message(7, sber.Search{Base: []byte(fmt.Sprintf("cn=linger-%d-%d", ti, s)), Scope: 2, Filter: sber.PresentFilter("cn"), Attrs: [][]byte{}}.Node(), nil).Encode())
+					for {
+						pm, err := cl.ReadMsg(c13Wait)
+						if err != nil {
+							c.Inconclusive("search before the upgrade: " + err.Error())
+							return
+						}
+						if pm.Op.Tag == sber.AppSearchResultDone {
+							break
+						}
+					}
+					c.Count("sessions_with_an_answered_request_before_the_upgrade", 1)
+				}
 				cl.Send(sber.Message(1, sber.ExtendedRequest([]byte(sber.OIDStartTLS), nil, false), nil).Encode())
 				m, err := cl.ReadMsg(c13Wait)
 				if err != nil || m.ID != 1 || m.Op.Tag != sber.AppExtendedResponse {
